@@ -103,10 +103,10 @@ func init() {
 
 // pkgSpec: a package of /repo that harnesses are overlaid into.
 type pkgSpec struct {
-	Dir        string // relative to /repo
-	Path       string // import path
-	Name       string // package clause
-	HarnessDir string // under /verif/harness
+	Dir        string            // relative to /repo
+	Path       string            // import path
+	Name       string            // package clause
+	HarnessDir string            // under /verif/harness
 	Extra      map[string]string // extra overlay files: virtual name -> source path in /repo (copied verbatim)
 }
 
@@ -117,6 +117,7 @@ var pkgSpecs = map[string]pkgSpec{
 		Extra: map[string]string{"zz_verif_bkld_diff.go": "cmd/bkld/diff.go"}},
 	"bklr":    {Dir: "cmd/bklr", Path: rootPath + "/cmd/bklr", Name: "main", HarnessDir: "bklr"},
 	"wrapper": {Dir: "wrapper", Path: rootPath + "/wrapper", Name: "wrapper", HarnessDir: "wrapper"},
+	"bklb":    {Dir: "cmd/bklb", Path: rootPath + "/cmd/bklb", Name: "main", HarnessDir: "bklb"},
 }
 
 // overlayFiles renders the harness files of a package: prelude templates with
